@@ -152,6 +152,26 @@ theorem verified_proof_is_finalised (k : B) (m : Mac B) (dms : List (Mac B)) (tr
   obtain ⟨_, _, t, hc, he, _⟩ := (verifyWith_ok_iff k m dms [] true tr cs).mp hv
   exact ⟨t, hc, by simpa [finIf, h] using he⟩
 
+/-- the WHOLE state of an encoded proof (caveats, tail, flags) is a fixed point of every later
+operation sequence — not only "add is refused": nothing about it can change any more -/
+theorem encoded_state_frozen (m : Mac B) (h : m.nonce.proof = true) (ops : List (Op B)) :
+    ops.foldl step (encodeState m) = encodeState m := by
+  have hfin := encoded_not_new m h
+  have hpr : (encodeState m).nonce.proof = true := by
+    unfold encodeState; split <;> simp [h]
+  generalize encodeState m = e at hfin hpr
+  induction ops with
+  | nil => rfl
+  | cons o os ih => simp only [List.foldl_cons, final_is_stable e hpr hfin o, ih]
+
+/-- hence the bytes a holder can produce from an encoded proof are always the same bytes, whatever
+they try in between -/
+theorem encoded_bytes_frozen (m : Mac Bytes) (h : m.nonce.proof = true) (ops : List (Op Bytes)) :
+    (Concrete.encode (ops.foldl step (encodeState m))).2 = (Concrete.encode m).2 := by
+  rw [encoded_state_frozen m h ops]
+  unfold Concrete.encode
+  simp [encode_idempotent]
+
 /-! ### non-vacuity (symbolic instance) -/
 
 section examples
@@ -169,6 +189,7 @@ example := final_is_stable (encodeState f1) rfl rfl (.add [.plain (.isUser 1)])
 example := final_after_any_sequence f0 rfl [.add [.plain (.confineUser 5)]] [.encode, .add [.plain (.isUser 2)], .encode]
   [.plain (.isUser 1)]
 example := finalize_once f1 rfl rfl 3
+example := encoded_state_frozen f1 rfl [.add [.plain (.isUser 2)], .encode, .add []]
 example : (encodeState (encodeState f1)).tail = finalize f1.tail := by rfl
 example : verify (atom 11) f1 [] (fun _ => []) = .error .unfinalized := unfinalised_unverifiable _ _ _ _ _ _ rfl rfl
 example : verify (atom 11) (encodeState f1) [] (fun _ => []) = .ok [.confineUser 5] := by rfl
@@ -191,3 +212,5 @@ end Macaroon.Props.C08
 #print axioms Macaroon.Props.C08.decoded_proof_refuses_add
 #print axioms Macaroon.Props.C08.unfinalised_unverifiable
 #print axioms Macaroon.Props.C08.verified_proof_is_finalised
+#print axioms Macaroon.Props.C08.encoded_state_frozen
+#print axioms Macaroon.Props.C08.encoded_bytes_frozen
